@@ -49,9 +49,15 @@ pub fn config_by_id(id: usize, names: &[String]) -> LintGroupConfig {
     c
 }
 
+/// The reference: a linter that has never linted anything, on a thread that has never linted anything
+/// (thread-local caches are part of "what the instance checked before").
 fn fresh_lints(text: &str, lang: &str, cfg: &LintGroupConfig, dialect: Dialect) -> Vec<Lint> {
-    let mut lg = LintGroup::new_curated(FstDictionary::curated(), dialect).with_lint_config(cfg.clone());
-    lg.lint(&make_doc(text, lang))
+    let (text, lang, cfg) = (text.to_string(), lang.to_string(), cfg.clone());
+    let h = std::thread::Builder::new().stack_size(16 << 20).spawn(move || {
+        let mut lg = LintGroup::new_curated(FstDictionary::curated(), dialect).with_lint_config(cfg);
+        lg.lint(&make_doc(&text, &lang))
+    }).unwrap();
+    match h.join() { Ok(v) => v, Err(p) => std::panic::resume_unwind(p) }
 }
 
 /// One session on one long-lived LintGroup: ops are ("cfg", id) | ("lint", text, lang)
@@ -176,6 +182,48 @@ pub fn c05(a: &Args) {
                 }
             }
             sessions.push((ops, i % 4, "family"));
+        }
+    }
+    // context families: the same adjacent word pair in several syntactic surroundings, one after the
+    // other on one thread (anything memoised per word, pair or phrase instead of per context shows)
+    if let Some(corpus) = a.get("corpus") {
+        let corpus = read_corpus(corpus);
+        let templates = ["The {p} supply.", "Bob's {p}.", "{p}", "A {p} is here.", "I like the {p}, really.", "They {p} it.",
+            "My {p} was {p}.", "Is it {p}?", "He is very {p}.", "{p} {p}", "To {p} is fine.", "We saw {p} and the {p}s."];
+        // split compounds: lower-case dictionary words that are two dictionary words written together
+        // (rules that merge or split words consult the dictionary about exactly these)
+        let splits: Vec<String> = {
+            use harper_core::Dictionary;
+            let dict = FstDictionary::curated();
+            let mut v = Vec::new();
+            for w in dict.words_iter() {
+                if w.len() < 6 || w.len() > 11 || !w.iter().all(|c| c.is_ascii_lowercase()) { continue; }
+                for k in 3..=w.len() - 3 {
+                    if dict.contains_exact_word(&w[..k]) && dict.contains_exact_word(&w[k..]) {
+                        v.push(format!("{} {}", w[..k].iter().collect::<String>(), w[k..].iter().collect::<String>()));
+                        break;
+                    }
+                }
+            }
+            v.sort();
+            v
+        };
+        for i in 0..a.num("context-families", 60) as usize {
+            let t = rng.pick(&corpus[..]).clone();
+            let words: Vec<&str> = t.split(|c: char| !c.is_alphabetic() && c != '\'').filter(|w| !w.is_empty()).collect();
+            if words.len() < 2 { continue; }
+            let mut ops: Vec<(String, usize, String, String)> = Vec::new();
+            for _ in 0..3 {
+                let k = rng.below(words.len() - 1);
+                let pair = if i % 3 != 0 && !splits.is_empty() { rng.pick(&splits[..]).clone() }
+                           else { format!("{} {}", words[k].to_lowercase(), words[k + 1].to_lowercase()) };
+                let mut order: Vec<usize> = (0..templates.len()).collect();
+                for j in (1..order.len()).rev() { order.swap(j, rng.below(j + 1)); }
+                for &ti in order.iter().take(7) {
+                    ops.push(("lint".to_string(), 0, templates[ti].replace("{p}", &pair), "plain".into()));
+                }
+            }
+            sessions.push((ops, i % 4, "context"));
         }
     }
     let threads = a.num("threads", 12) as usize;
